@@ -3,14 +3,15 @@
 package db
 
 import (
-	"os"
 	"context"
 	"crypto/sha1"
 	"encoding/base64"
 	"fmt"
+	"os"
 	"sort"
 	"strings"
 	"testing"
+	"time"
 
 	"github.com/couchbase/sync_gateway/base"
 	"github.com/couchbase/sync_gateway/verifshim/vreport"
@@ -57,6 +58,10 @@ type c14DocModel struct {
 type c14Case struct {
 	Hist     []string `json:"hist"`
 	CasRetry bool     `json:"cas_retry"`
+	// VV: which of the non-branch writes arrive as revisions from another Sync Gateway under the version-vector
+	// protocol (non-conflicting, attachments inline or as stubs, as the replication handler hands them over) instead of
+	// being local writes: "" none, "last" the last one, "all" every one
+	VV string `json:"vv,omitempty"`
 }
 
 type c14Env struct {
@@ -236,11 +241,22 @@ func (e *c14Env) run(t testing.TB, r *vreport.Report, c c14Case) {
 			if del {
 				body = Body{BodyRev: win.rev, BodyDeleted: true}
 			}
-			newRev, _, err = coll.Put(ctx, docID, body)
+			if c.VV == "all" || (c.VV == "last" && last) {
+				newRev, err = c14PutVV(ctx, coll, docID, win, body, del, step)
+			} else {
+				newRev, _, err = coll.Put(ctx, docID, body)
+			}
 		}
 		H.Plan, H.Select, H.Enabled = nil, nil, false
-		rep := c14Case{Hist: c.Hist[:step+1], CasRetry: c.CasRetry && last}
+		rep := c14Case{Hist: c.Hist[:step+1], CasRetry: c.CasRetry && last, VV: c.VV}
+		if c.VV == "last" && !last {
+			rep.VV = ""
+		}
 		tag := fmt.Sprintf("cas_retry=%v", c.CasRetry && last)
+		tag0 := tag // recognised mechanisms about conflicting branches are the same finding whichever way the other writes arrive
+		if rep.VV != "" {
+			tag += "/vv=" + rep.VV
+		}
 		if err != nil {
 			r.Violate("C14/write-failed/"+act+"/"+tag, fmt.Sprintf("step %d %q of %v failed: %v", step, sym, c.Hist, err), rep)
 			return
@@ -275,7 +291,7 @@ func (e *c14Env) run(t testing.TB, r *vreport.Report, c c14Case) {
 				}
 				sort.Strings(want)
 				if strings.Join(got, ",") != strings.Join(want, ",") {
-					r.Violate("C14/losing-branch-replaces-the-winners-attachment-metadata/"+tag, fmt.Sprintf("after pushing the non-winning sibling %s (attachments %v) the winning revision %s lists attachments %v, it listed %v before; history %v", newRev, newAtts, win.rev, got, want, c.Hist[:step+1]), rep)
+					r.Violate("C14/losing-branch-replaces-the-winners-attachment-metadata/"+tag0, fmt.Sprintf("after pushing the non-winning sibling %s (attachments %v) the winning revision %s lists attachments %v, it listed %v before; history %v", newRev, newAtts, win.rev, got, want, c.Hist[:step+1]), rep)
 					return
 				}
 				// ... and the pushed leaf itself must read back with the attachments it was pushed with
@@ -291,7 +307,7 @@ func (e *c14Env) run(t testing.TB, r *vreport.Report, c c14Case) {
 					}
 					sort.Strings(wantNames)
 					if strings.Join(names, ",") != strings.Join(wantNames, ",") {
-						r.Violate("C14/losing-branch-read-back-without-its-attachments/"+tag, fmt.Sprintf("the non-winning sibling %s was pushed with attachments %v and reads back with %v; history %v", newRev, wantNames, names, c.Hist[:step+1]), rep)
+						r.Violate("C14/losing-branch-read-back-without-its-attachments/"+tag0, fmt.Sprintf("the non-winning sibling %s was pushed with attachments %v and reads back with %v; history %v", newRev, wantNames, names, c.Hist[:step+1]), rep)
 						return
 					}
 				}
@@ -311,7 +327,7 @@ func (e *c14Env) run(t testing.TB, r *vreport.Report, c c14Case) {
 					if del && did == id && len(dm.leaves) > 1 {
 						// mechanism: the winning branch was tombstoned, which promotes this leaf of another branch to current
 						// revision; the sweep of the tombstoned winner's attachments removed what the promoted leaf lists
-						fp = "C14/promoted-leaf-loses-attachment-when-the-winning-branch-is-tombstoned/" + tag
+						fp = "C14/promoted-leaf-loses-attachment-when-the-winning-branch-is-tombstoned/" + tag0
 					}
 					r.Violate(fp, fmt.Sprintf("leaf %s of %s cannot be read with attachments: %v; history %v", leaf.rev, did, gerr, c.Hist[:step+1]), rep)
 					if strings.HasPrefix(fp, "C14/promoted-leaf") {
@@ -374,6 +390,49 @@ func (e *c14Env) run(t testing.TB, r *vreport.Report, c c14Case) {
 	}
 }
 
+// c14PutVV writes the update as a non-conflicting revision received from another Sync Gateway under the version-vector
+// protocol: the incoming vector dominates the local one and the revision-tree history continues the local winner
+func c14PutVV(ctx context.Context, coll *DatabaseCollectionWithUser, docID string, win *c14Leaf, body Body, del bool, step int) (string, error) {
+	incoming := &HybridLogicalVector{SourceID: "cmVtb3Rl", Version: uint64(time.Now().UnixNano()) + 1000000000, PreviousVersions: HLVVersions{}}
+	gen := 1
+	var history []string
+	if win != nil {
+		cur, err := coll.GetDocument(ctx, docID, DocUnmarshalSync)
+		if err != nil {
+			return "", err
+		}
+		g, _ := ParseRevID(ctx, win.rev)
+		gen = g + 1
+		history = []string{win.rev}
+		if cur.HLV != nil {
+			for src, v := range cur.HLV.PreviousVersions {
+				incoming.PreviousVersions[src] = v
+			}
+			if cur.HLV.SourceID != incoming.SourceID {
+				incoming.PreviousVersions[cur.HLV.SourceID] = cur.HLV.Version
+			}
+			if cur.HLV.Version >= incoming.Version {
+				incoming.Version = cur.HLV.Version + 1000
+			}
+			delete(incoming.PreviousVersions, incoming.SourceID)
+		}
+	}
+	rev := fmt.Sprintf("%d-vv%d", gen, step)
+	history = append([]string{rev}, history...)
+	newDoc := &Document{ID: docID, RevID: rev, Deleted: del, HLV: incoming}
+	b := Body{}
+	for k, v := range body {
+		if k != BodyRev && k != BodyDeleted && k != BodyAttachments {
+			b[k] = v
+		}
+	}
+	newDoc.SetAttachments(GetBodyAttachments(body))
+	newDoc.UpdateBody(b)
+	_, _, _, err := coll.PutExistingCurrentVersion(ctx, PutDocOptions{NewDoc: newDoc, RevTreeHistory: history, NewDocHLV: incoming, ISGRWrite: true,
+		ForceAllowConflictingTombstone: del, ConflictResolver: NewConflictResolver(DefaultLWWConflictResolutionType, nil)})
+	return rev, err
+}
+
 func TestVerifC14(t *testing.T) {
 	r := vreport.Begin("C14")
 	defer r.Finish(t)
@@ -411,19 +470,21 @@ func TestVerifC14(t *testing.T) {
 	var rec func(h []string)
 	rec = func(h []string) {
 		if len(h) == D+len(base)-map[bool]int{true: 1, false: 0}[len(base) > 0] {
-			for _, cas := range []bool{false, true} {
-				idx++
-				if !r.Mine(idx) || r.Expired() {
-					continue
-				}
-				if e.n%200 == 199 {
-					fresh()
-				}
-				e.run(t, r, c14Case{Hist: append([]string{}, h...), CasRetry: cas})
-				r.Add("evaluations", 1)
-				r.Add("distinct_nontrivial", 1)
-				if idx%499 == 0 {
-					r.Sample(c14Case{Hist: append([]string{}, h...), CasRetry: cas})
+			for _, vv := range []string{"", "last", "all"} {
+				for _, cas := range []bool{false, true} {
+					idx++
+					if !r.Mine(idx) || r.Expired() {
+						continue
+					}
+					if e.n%200 == 199 {
+						fresh()
+					}
+					e.run(t, r, c14Case{Hist: append([]string{}, h...), CasRetry: cas, VV: vv})
+					r.Add("evaluations", 1)
+					r.Add("distinct_nontrivial", 1)
+					if idx%499 == 0 {
+						r.Sample(c14Case{Hist: append([]string{}, h...), CasRetry: cas, VV: vv})
+					}
 				}
 			}
 			return
